@@ -253,6 +253,8 @@ def localTextViol (s : Str) (n : Node) : List Viol :=
     if tc == w then []
     else if tc == w ++ ['\\'] && (s.drop n.pos.2 == [] || s.drop n.pos.2 == ['\n']) then
       ["operator-span-includes-final-backslash"]
+    -- the double unget of D32 after a reserved word: `then<\` + newline keeps `<\` in the span
+    else if (t == w ++ ['<', '\\'] || t == w ++ ['>', '\\']) then ["reservedword-text+redircont"]
     else ["reservedword-text"]
   | .pipe _ w =>
     if tc == w then []
